@@ -388,9 +388,15 @@ def _e_datasets(spec, rs, variant):
     return getattr(datasets, name), (int(spec.get('size', 12)), int(spec.get('dseed', 3))), {}, None
 
 
-def _viz_frames(rs, d, n=12, index='range'):
+def _viz_frames(rs, d, n=12, index='range', ties=False):
     real = pd.DataFrame(rs.normal(size=(n, d)), columns=['a', 'b', 'c', 'e'][:d])
     synth = pd.DataFrame(rs.normal(size=(n + 3, d)) + 1.0, columns=['a', 'b', 'c', 'e'][:d])
+    if ties:
+        # integer-like data with repeated rows and rows that tie on some columns only
+        real = (real * 2).round()
+        synth = (synth * 2).round()
+        real.iloc[1] = real.iloc[0]
+        synth.iloc[2] = synth.iloc[0]
     if index == 'filtered':
         # what a caller gets from data[data.x > 0]: a non-contiguous index
         real = real.iloc[::2]
@@ -424,7 +430,8 @@ def _e_scatter(spec, rs, variant):
     from copulas import visualization as viz
     dims = 2 if variant.startswith('2d') else 3
     with_cols = variant.endswith('_columns')
-    real, _ = _viz_frames(rs, dims + (1 if with_cols else 0), index=spec.get('index', 'range'))
+    real, _ = _viz_frames(rs, dims + (1 if with_cols else 0), index=spec.get('index', 'range'),
+                          ties=spec.get('ties', False))
     cols = list(real.columns[-dims:]) if with_cols else None
     if cols and spec.get('reverse_columns'):
         cols = cols[::-1]                 # requested order differs from the frame's order
@@ -442,7 +449,7 @@ def _e_compare(spec, rs, variant):
     dims = 2 if variant.startswith('2d') else 3
     with_cols = variant.endswith('_columns')
     real, synth = _viz_frames(rs, dims + (1 if with_cols else 0),
-                              index=spec.get('index', 'range'))
+                              index=spec.get('index', 'range'), ties=spec.get('ties', False))
     cols = list(real.columns[-dims:]) if with_cols else None
     if cols and spec.get('reverse_columns'):
         cols = cols[::-1]
@@ -475,7 +482,7 @@ def _rand_spec(rng):
             'vine_type': rng.choice(zoo.VINE_TYPES), 'kde': rng.random() < 0.4,
             'generic': rng.random() < 0.5, 'edges': rng.random() < 0.6,
             'index': rng.choice(['range', 'filtered', 'shifted', 'labels']),
-            'reverse_columns': rng.random() < 0.5,
+            'reverse_columns': rng.random() < 0.5, 'ties': rng.random() < 0.4,
             'dataset': rng.choice(['sample_bivariate_age_income', 'sample_trivariate_xyz',
                                    'sample_univariate_bimodal', 'sample_univariates',
                                    'sample_univariate_degenerate']),
@@ -498,7 +505,8 @@ def fixed_runs(tier):
                                   'biv': zoo.BIV_FAMILIES[len(runs) % 3],
                                   'vine_type': zoo.VINE_TYPES[len(runs) % 3],
                                   'index': ['range', 'filtered', 'shifted', 'labels'][len(runs) % 4],
-                                  'reverse_columns': len(runs) % 2 == 1},
+                                  'reverse_columns': len(runs) % 2 == 1,
+                                  'ties': len(runs) % 3 == 0},
                          'seed': 100 + len(runs), 'readonly': False, 'ops': []})
     return runs
 
